@@ -120,6 +120,9 @@ func checkC04(c *Ctx) {
 			}
 		}
 	}, func(o *coreObl) (string, bool) { return "R04.8", o.Rule == "R02.2" })
+	// R04.4 also when the copy is taken too late: a copy made inside the goroutine reads the caller's buffer after Get returned, so
+	// the background build writes to and unlocks whatever the buffer holds by then (C09 R09.1)
+	c.borrowKinds("C09", func() { c.c09Retention() }, "R04.4", "Failover.Get:key-copied-before-go", []string{"R09.1"}, "read-in-goroutine")
 	// R04.5: "when the caller's context is cancelled after Get returned" — the detached context's Done/Err/Deadline are its own
 	c.borrow("C06", func() { c.c06Detached() }, func(o *coreObl) (string, bool) { return "R04.5", o.Rule == "R06.4" })
 }
